@@ -416,6 +416,11 @@ impl World {
             let b = &self.conns[conn].broker;
             (b.fail_pct, b.longform_pct)
         };
+        // what the client said it can take (Maximum Packet Size of its CONNECT)
+        let client_max = self.conns[conn].out.packets.first().and_then(|p| match &p.pkt {
+            CPacket::Connect { props, .. } => props.iter().find_map(|q| if let Prop::MaximumPacketSize(m) = q { Some(*m as usize) } else { None }),
+            _ => None,
+        });
         let rng = &mut self.conns[conn].brng;
         let reason = if fail_pct > 0 && rng.chance(fail_pct as u32, 100) {
             *rng.pick(fail_codes)
@@ -426,6 +431,10 @@ impl World {
         let (r, p) = if long {
             let props = if rng.chance(1, 2) {
                 vec![]
+            } else if client_max.is_some_and(|m| m >= 300) && rng.chance(1, 2) {
+                // an acknowledgement whose Remaining Length needs two bytes (a talkative broker)
+                let n = 124 + rng.below(100);
+                vec![Prop::ReasonString("because ".repeat(n / 8 + 1)[..n].to_string())]
             } else {
                 vec![Prop::ReasonString("why".into()), Prop::UserProperty("k".into(), "v".into())]
             };
